@@ -8,6 +8,7 @@ import (
 	"slices"
 	"strings"
 	"sync"
+	"sync/atomic"
 	"time"
 
 	"github.com/miekg/dns"
@@ -67,6 +68,30 @@ func cnameChaseDepth(ctx context.Context) int {
 
 func withCnameChaseDepth(ctx context.Context, depth int) context.Context {
 	return context.WithValue(ctx, cnameChaseDepthKey, depth)
+}
+
+// maxAliasChaseHops bounds the aliases followed on behalf of one client
+// query, over every invocation of the chase taken together. The two caps
+// above multiply rather than add: each of an invocation's ten hops
+// re-enters the cache, where a hit starts a ten-hop walk of its own, ten
+// levels deep, and a loop of a dozen names — every sub-query a cache hit,
+// nothing on that route looking at the deadline — runs millions of
+// sub-queries for one question. One counter for the whole request tree
+// turns the product into a sum.
+const maxAliasChaseHops = 32
+
+type aliasChaseHopsKeyType struct{}
+
+var aliasChaseHopsKey = &aliasChaseHopsKeyType{}
+
+// withAliasChaseHops returns the request tree's alias-hop counter, installing
+// one in the context when this is the tree's first chase.
+func withAliasChaseHops(ctx context.Context) (context.Context, *atomic.Int32) {
+	if hops, ok := ctx.Value(aliasChaseHopsKey).(*atomic.Int32); ok {
+		return ctx, hops
+	}
+	hops := new(atomic.Int32)
+	return context.WithValue(ctx, aliasChaseHopsKey, hops), hops
 }
 
 // sharedDenialBypassKey pins raw ECS and incoming CD=1 to the whole request
@@ -1936,6 +1961,7 @@ func (c *Cache) additionalAnswer(ctx context.Context, msg *dns.Msg) *dns.Msg {
 
 	cnameDepth := 10
 	targets := []string{}
+	ctx, hops := withAliasChaseHops(ctx)
 
 	if len(cnameReq.Question) > 0 {
 	lookup:
@@ -1949,6 +1975,10 @@ func (c *Cache) additionalAnswer(ctx context.Context, msg *dns.Msg) *dns.Msg {
 		}
 
 		targets = append(targets, target)
+
+		if hops.Add(1) > maxAliasChaseHops {
+			return dnsutil.SetRcode(msg, dns.RcodeServerFailure, false)
+		}
 
 		respCname, lineage, err := c.internalExchange(ctx, cnameReq)
 		if errors.Is(err, middleware.ErrRecursionWorkLimit) {
